@@ -66,7 +66,8 @@ def _quiet():
     return contextlib.redirect_stdout(io.StringIO())
 
 
-TARGETS = ("gauss", "hole", "corner", "tiny")
+TARGETS = ("gauss", "hole", "corner", "tiny", "nan", "posinf", "mixed")
+NONFINITE_TARGETS = ("nan", "posinf", "mixed")
 
 
 class CountingLike:
@@ -74,7 +75,10 @@ class CountingLike:
     `gauss` — interior Gaussian;  `hole` — a region of the prior has likelihood 0 (−inf), so the warm-up replacement branch fires;
     `corner` — a narrow Gaussian in a corner of the prior cube, so proposals leave the cube through its hard boundary;
     `tiny` — the likelihood is finite on ~2 % of the prior only, so most warm-up batches of 12-16 draws have NO finite draw and the
-    warm-up branch redraws (`while np.all(np.isinf(logl))`)."""
+    warm-up branch redraws (`while np.all(np.isinf(logl))`);
+    `nan` — NaN on a region of the prior (a log outside its domain);  `posinf` — +inf on a small region;  `mixed` — NaN, −inf and +inf
+    regions.  With non-finite values a run degenerates (NaN weights / evidence, beta may stay 0) — but identically under every
+    strategy, bit for bit, NaN positions included: the fault values are values like any other."""
 
     def __init__(self, blobs=False, target="gauss"):
         if target is True:
@@ -91,6 +95,8 @@ class CountingLike:
             self.f = self.f_corner
         elif target == "tiny":
             self.f = self.f_tiny
+        elif target in NONFINITE_TARGETS:
+            self.f = {"nan": self.f_nan, "posinf": self.f_posinf, "mixed": self.f_mixed}[target]
 
     @staticmethod
     def f(x):
@@ -103,6 +109,25 @@ class CountingLike:
     @staticmethod
     def f_corner(x):
         return -0.5 * float(np.sum((x - 2.9) ** 2)) * 4.0
+
+    @staticmethod
+    def f_nan(x):
+        with np.errstate(all="ignore"):
+            return float(-0.5 * np.sum((x - 0.3) ** 2) * 2.5 + 0.25 * np.log(x[0] + 2.0))      # NaN for x0 < -2 (1/6 of the prior)
+
+    @staticmethod
+    def f_posinf(x):
+        return np.inf if (x[0] > 2.5 and x[1] > 2.0) else -0.5 * float(np.sum((x - 0.3) ** 2)) * 2.5
+
+    @staticmethod
+    def f_mixed(x):
+        if x[0] < -2.2:
+            return np.nan
+        if x[1] < -2.0:
+            return -np.inf
+        if x[0] > 2.7 and x[1] > 2.5:
+            return np.inf
+        return -0.5 * float(np.sum((x - 0.3) ** 2)) * 2.5
 
     @staticmethod
     def f_tiny(x):
@@ -347,9 +372,19 @@ def _run_inner(strategy, kernel, blobs, seed, n_iter=None, n_total=48, hole="gau
     elif hasattr(pool, "shutdown") and not isinstance(pool, NewestFirstExecutor):
         pool.shutdown(wait=False)
     st_ = s.state
-    fp = common.digest([st_.get_history("u", flat=True).tobytes().hex(), st_.get_history("logl", flat=True).tobytes().hex(),
-                        np.asarray(st_.get_history("beta")).tobytes().hex(), np.asarray(st_.get_history("logz")).tobytes().hex(),
-                        st_.compute_logw_and_logz(1.0)[0].tobytes().hex(), repr(st_.compute_logw_and_logz(1.0)[1])])
+
+    def bits(a):
+        """bit pattern of a float array with every NaN mapped to ONE canonical NaN (NaN-aware exact comparison: positions of NaN
+        matter, payload / sign of a NaN do not); -0.0 / 0.0, +-inf and all finite values are compared bit for bit"""
+        a = np.array(a, dtype=float, copy=True)
+        a[np.isnan(a)] = np.nan
+        return a.tobytes().hex()
+    with warnings.catch_warnings():
+        warnings.simplefilter("ignore")
+        logw1, logz1 = st_.compute_logw_and_logz(1.0)
+    fp = common.digest([bits(st_.get_history("u", flat=True)), bits(st_.get_history("x", flat=True)), bits(st_.get_history("logl", flat=True)),
+                        bits(st_.get_history("beta")), bits(st_.get_history("logz")), bits(st_.get_history("calls")),
+                        bits(logw1), bits([logz1])])
     return fp, trace
 
 
@@ -451,7 +486,7 @@ def run_property_violations(cases, strategies=None, oracles=("calls", "transpare
                                         f"user's likelihood was actually evaluated at {counted} points"))
                         break
             if "transparency" in oracles and name != "scalar" and ref is not None and fp != ref[0]:
-                first = next((i for i, (x, y) in enumerate(zip(ref[1], trace)) if x[:3] != y[:3]), None)
+                first = next((i for i, (x, y) in enumerate(zip(ref[1], trace)) if repr(x[:3]) != repr(y[:3])), None)
                 bad.append(dict(base, oracle="transparency", what=f"strategy `{name}` and scalar evaluation give different histories/weights/"
                                 f"evidence for the same seed (first differing iteration: {first})"))
     return bad
@@ -472,7 +507,10 @@ def calls_correspondence(drv, cases, corr):
         try:
             _, trace = _run(name, kernel, blobs, seed, hole=target)
         except Exception as e:  # noqa
-            corr.disagree(input=case, impl=f"run raised {type(e).__name__}: {e}", model="runs")
+            if target in NONFINITE_TARGETS:
+                corr.count("non-finite target: run raised " + type(e).__name__)     # degenerate weights may abort a run; not a statement of C13
+            else:
+                corr.disagree(input=case, impl=f"run raised {type(e).__name__}: {e}", model="runs")
             continue
         ops, nb_prev = [], 0
         for k, (beta, steps, calls, counted, nb) in enumerate(trace):
@@ -1032,7 +1070,7 @@ def _whole_run_specs(rng, tier):
             ("pool=2", "tpcn", True, "tiny", "second-run"), ("reversed", "rwm", True, "tiny", "load_state"),
             ("vector+pool=3", "tpcn", False, "tiny", "mid")]
     if tier == "thorough":
-        base += [(n, k, b, h, r) for n in STRATEGIES for k in ("tpcn", "rwm") for b in (False, True) for h in TARGETS
+        base += [(n, k, b, h, r) for n in STRATEGIES for k in ("tpcn", "rwm") for b in (False, True) for h in TARGETS if h not in NONFINITE_TARGETS
                  for r in (None, "mid", "load_state", "second-run") if not (n.startswith("vector") and b)][::11]
     for i, (strategy, kernel, blobs, target, resume) in enumerate(base):
         ns = rng.choice([1, 1, 2, 3])
@@ -1107,16 +1145,22 @@ def correspond(tier):
            suite_evaluate_likelihood(drv, tier), suite_pipeline_strategies(drv, tier)]
     c = Corr("strategy-transparency", "exact (bit-identical fingerprints of paired seeded runs; calls == points evaluated on every run)")
     cases = [("tpcn", False, rng.randrange(2 ** 31), "gauss"), ("rwm", True, rng.randrange(2 ** 31), "hole"),
-             ("tpcn", False, rng.randrange(2 ** 31), "corner"), ("rwm", False, rng.randrange(2 ** 31), "tiny")]
+             ("tpcn", False, rng.randrange(2 ** 31), "corner"), ("rwm", False, rng.randrange(2 ** 31), "tiny"),
+             ("tpcn", False, rng.randrange(2 ** 31), "nan"), ("rwm", True, rng.randrange(2 ** 31), "mixed"),
+             ("tpcn", rng.random() < 0.5, rng.randrange(2 ** 31), "posinf")]
     if tier == "thorough":
-        cases += [(k, b, rng.randrange(2 ** 31), h) for k in ("tpcn", "rwm") for b in (False, True) for h in TARGETS]
-    for case in cases:
-        for name in STRATEGIES:
+        cases += [(k, b, rng.randrange(2 ** 31), h) for k in ("tpcn", "rwm") for b in (False, True) for h in TARGETS][::2]
+    subset = ["vector", "vector+sized", "vector+pool=3", "pool=3", "pool=True", "reversed", "shuffled", "threaded", "mp-like",
+              "executor-newest-first", "threadpool"]
+    for i, case in enumerate(cases):
+        # quick tier: the first two cases pair EVERY strategy with scalar evaluation, the others a representative subset
+        names = list(STRATEGIES) if (tier == "thorough" or i < 2) else subset
+        for name in names:
             if name != "scalar" and not (name.startswith("vector") and case[1]):
                 c.case((case, name), True)
                 c.count(name)
         c.count("target:" + case[3])
-        for b in run_property_violations([case]):
+        for b in run_property_violations([case], strategies=names):
             c.disagree(input=case, impl=b["what"], model="C13_run_strategy_independent / C13_run_calls_evaluated", kind="property")
     c.sample({"paired strategies": list(STRATEGIES), "case": cases[0]})
     out.append(c)
@@ -1127,6 +1171,8 @@ def correspond(tier):
                ("executor-newest-first", "tpcn", True), ("pool=3", "rwm", True), ("vector+pool=3", "tpcn", False)]]
     ccases += [(n, k, b, rng.randrange(2 ** 31), "tiny") for n, k, b in
                [("scalar", "rwm", False), ("vector", "tpcn", False), ("pool=3", "tpcn", True), ("mp-like", "rwm", True), ("vector+sized", "rwm", False)]]
+    ccases += [(n, k, b, rng.randrange(2 ** 31), t) for n, k, b, t in
+               [("vector", "tpcn", False, "nan"), ("pool=3", "rwm", True, "mixed"), ("scalar", "tpcn", False, "posinf"), ("vector+sized", "rwm", False, "mixed")]]
     if tier == "thorough":
         ccases += [(n, k, b, rng.randrange(2 ** 31)) for n in STRATEGIES for k in ("tpcn", "rwm") for b in (False, True) if not (n.startswith("vector") and b)]
     calls_correspondence(drv, ccases, c2)
@@ -1144,18 +1190,19 @@ def search(tier, hints):
     A disagreement between model and code is NOT a failing input; it only triggers this exploration: every strategy (scalar,
     vectorised, vectorised+pool, int pools of several sizes, pool doubles, real thread pools / executors) x both kernels x blobs x
     targets {interior Gaussian, -inf region (warm-up replacement), narrow corner target (proposals leave the prior cube), tiny support
-    (warm-up batches without a finite draw: the redraw loop)}, then complete runs incl. runs resumed from a checkpoint (by path and by
+    (warm-up batches without a finite draw: the redraw loop), and likelihoods with NON-FINITE values: a NaN region, a +inf region, NaN / -inf /
+    +inf mixed — degenerate runs, but bit-identical under every strategy on correct code (NaN positions compared, payloads not)}, then complete runs incl. runs resumed from a checkpoint (by path and by
     load_state) and a second run() on the same sampler.  Nothing found => the verdict is `no-failing-input-found`."""
     rng = common.rng_for("C13.search")
     hinted = [h.get("strategy") or (h.get("spec") or {}).get("strategy") for h in hints if isinstance(h, dict)]
     order = [n for n in STRATEGIES if n in hinted] + [n for n in STRATEGIES if n not in hinted]
     found = []
-    for target in ("tiny", "corner", "hole", "gauss"):
-        for kernel in ("tpcn", "rwm"):
-            for blobs in (False, True):
-                found += run_property_violations([(kernel, blobs, rng.randrange(2 ** 31), target)], strategies=order)
-                if len(found) >= 3:
-                    return found[:5]
+    for target in ("tiny", "nan", "mixed", "corner", "hole", "posinf", "gauss"):
+        combos = [("tpcn", False), ("rwm", True)] if target in NONFINITE_TARGETS else [(k, b) for k in ("tpcn", "rwm") for b in (False, True)]
+        for kernel, blobs in combos:
+            found += run_property_violations([(kernel, blobs, rng.randrange(2 ** 31), target)], strategies=order)
+            if len(found) >= 3:
+                return found[:5]
     specs = _whole_run_specs(rng, "quick")
     found += whole_run_property_violations(specs)
     return found[:5]
